@@ -408,7 +408,9 @@ P_C06(pre, e) ==
                    (pre.ord[o2].side = pre.ord[o1].side /\ o2 # o1 /\
                     (IF pre.ord[o1].side = "LAY" THEN pre.ord[o2].price > pre.ord[o1].price
                      ELSE pre.ord[o2].price < pre.ord[o1].price)) =>
-                      Ck("C06", "BetterPriceFirst", Rem(post.ord[o2]) = 0, <<o1, o2>>)
+                      \* (an odd reported amount leaves half a penny behind the better order's rounded fill: the next
+                      \*  order may pick up that crumb, one penny per odd level)
+                      Ck("C06", "BetterPriceFirst", Rem(post.ord[o2]) = 0 \/ fill(o1) <= OddLevels(pre.ord[o1], d), <<o1, o2, fill(o1), d>>)
 
 -----------------------------------------------------------------------------
 (* C09 *)
